@@ -52,7 +52,7 @@ theorem dtc_U_eq_X {cov : Cov ℝ} {x : Mat ℝ n d} {y : Mat ℝ n c} {mu : ℝ
     (jitter • (toM (gram cov x x) + jitter • (1 : Matrix (Fin n) (Fin n) ℝ))
         + toM (gram cov x x) * (toM (gram cov x x))ᵀ) * toM s.weights
       = toM (gram cov x x) * toM (residual y mu) := by
-  obtain ⟨L, N, hLLt, hN, hsolve, _, _, _⟩ := C01.dtc_weights_solve h
+  obtain ⟨L, N, hLLt, hN, hsolve, _, _, _⟩ := C01.dtc_weights_solve h (C01.perCell_mean sigma ycf)
   have hNj : N = jitter • (1 : Matrix (Fin n) (Fin n) ℝ) := by
     unfold C01.dtcNoise at hN
     simp only [if_true] at hN
@@ -63,6 +63,46 @@ theorem dtc_U_eq_X {cov : Cov ℝ} {x : Mat ℝ n d} {y : Mat ℝ n c} {mu : ℝ
     rw [Matrix.mul_smul, Matrix.mul_one, Matrix.smul_mul, hLLt]
   rw [hM] at hsolve
   exact hsolve
+
+/-- **DTC vs full GP with per-cell noise, inducing points = cells.**  With one noise level per cell,
+    `D = diag(dᵢ)` (`dᵢ = max(σᵢ², jitter) ≠ 0`), the full weights `(K + D) w_f = r` and the inducing-point weights
+    `(K̃ + K D⁻¹ K) w = K D⁻¹ r` (`K̃ = K + jitter·I`) satisfy `(K̃ + K D⁻¹ K)(w_f − w) = jitter · w_f`: the two models
+    differ by an explicit `O(jitter)` term. -/
+theorem dtc_percell_vs_full (K : Matrix (Fin n) (Fin n) ℝ) (hK : K.IsSymm) (j : ℝ) (D Dinv : Fin n → ℝ)
+    (hD : ∀ i, Dinv i * D i = 1) (wf w r : Matrix (Fin n) (Fin c) ℝ)
+    (hfull : (K + Matrix.diagonal D) * wf = r)
+    (hdtc : (K + j • (1 : Matrix (Fin n) (Fin n) ℝ) + K * Matrix.diagonal Dinv * Kᵀ) * w
+        = K * Matrix.diagonal Dinv * r) :
+    (K + j • (1 : Matrix (Fin n) (Fin n) ℝ) + K * Matrix.diagonal Dinv * Kᵀ) * (wf - w) = j • wf := by
+  have hDD : Matrix.diagonal Dinv * Matrix.diagonal D = (1 : Matrix (Fin n) (Fin n) ℝ) := by
+    rw [Matrix.diagonal_mul_diagonal]
+    have : (fun i => Dinv i * D i) = fun _ : Fin n => (1 : ℝ) := funext hD
+    rw [this, Matrix.diagonal_one]
+  have hKw : K * wf = r - Matrix.diagonal D * wf := by
+    have := hfull
+    rw [Matrix.add_mul] at this
+    rw [← this]; abel
+  rw [Matrix.mul_sub, hdtc, hK.eq]
+  have : (K + j • (1 : Matrix (Fin n) (Fin n) ℝ) + K * Matrix.diagonal Dinv * K) * wf
+      = K * Matrix.diagonal Dinv * r + j • wf := by
+    rw [Matrix.add_mul, Matrix.add_mul, Matrix.smul_mul, Matrix.one_mul, Matrix.mul_assoc (K * Matrix.diagonal Dinv), hKw,
+      Matrix.mul_sub, Matrix.mul_assoc K (Matrix.diagonal Dinv) (Matrix.diagonal D * wf), ← Matrix.mul_assoc (Matrix.diagonal Dinv),
+      hDD, Matrix.one_mul, hKw]
+    abel
+  rw [this]; abel
+
+/-- The inducing-point equation of `dtc_percell_vs_full` is the one `_LandmarksConditional` solves when the inducing
+    points are the cells and `sigma` is a per-cell vector (`FunctionEstimator(gp_type='fixed', landmarks = cells,
+    sigma = vector)`): instance of `C01.dtc_percell_weights_solve`. -/
+theorem dtc_percell_U_eq_X {cov : Cov ℝ} {x : Mat ℝ n d} {y : Mat ℝ n c} {mu : ℝ} {v : Vector ℝ n} {jitter : ℝ}
+    {withUnc : Bool} {s : CondState ℝ n d c}
+    (h : lmCondInit cov x x y mu (.vec v) jitter Option.none false withUnc = .ok s) :
+    (toM (gram cov x x) + jitter • (1 : Matrix (Fin n) (Fin n) ℝ)
+        + toM (gram cov x x) * Matrix.diagonal (fun i : Fin n => (max (v.nth i * v.nth i) jitter)⁻¹)
+            * (toM (gram cov x x))ᵀ) * toM s.weights
+      = toM (gram cov x x) * Matrix.diagonal (fun i : Fin n => (max (v.nth i * v.nth i) jitter)⁻¹)
+          * toM (residual y mu) :=
+  (C01.dtc_percell_weights_solve h).1
 
 /-- **'fixed' with landmarks = cells vs 'full'.** The inducing-point factor has
     `L Lᵀ = K K̃⁻¹ K`, so `K̃ − L Lᵀ = 2·jitter·I − jitter²·K̃⁻¹` (of norm at most `2·jitter`). -/
